@@ -34,6 +34,28 @@ def toTEv : Xml.TFEv → TEv
   | .end_ n => .ev (.end_ n)
   | .other e => .ev (passEv e)
 
+/-- an event in front of the flattener, in C02's vocabulary -/
+def toX : QEv → Xml.XEv
+  | .start t a => .ev (.start t a)
+  | .empty t a => .empty t a
+  | .end_ t => .ev (.end_ t)
+  | .text s f => .ev (.text s f)
+  | .comment s => .ev (.comment s)
+  | .pi t d => .ev (.pi t d)
+  | .doctype n p s => .ev (.doctype n p s)
+  | .xmlDecl v e s => .ev (.xmlDecl v e s)
+  | .startNs p u => .ev (.startNs p u)
+  | .endNs p => .ev (.endNs p)
+  | .startCdata => .ev .startCdata
+  | .endCdata => .ev .endCdata
+
+/-- a flattened event of C02's vocabulary as the main loop sees it -/
+def ofXF : Xml.FEv → FEv
+  | .start n a => .start n a
+  | .empty n a => .empty n a
+  | .end_ n => .end_ n
+  | .other e => passEv e
+
 /-- `''.join(serializer(stream))` behind `EmptyTagFilter`: flattener and main loop with the same
     cache flag -/
 def serT (m : Method) (o : Opts) (pref : List (Str × Str)) (cache : Bool) (evs : List Xml.TXEv) : Str :=
